@@ -600,7 +600,8 @@ StateScript *ProgramScript::GetCatchStateScript(const opval_t* in, const opval_t
 
         if (in >= catchBlock.GetTryStartCodePos() && in < catchBlock.GetTryEndCodePos())
         {
-            if (!bestCatchBlock || catchBlock.GetTryEndCodePos() < bestCatchBlock->GetTryStartCodePos())
+            // of the try blocks that contain the position, the innermost one starts last
+            if (!bestCatchBlock || catchBlock.GetTryStartCodePos() > bestCatchBlock->GetTryStartCodePos())
             {
                 bestCatchBlock = &catchBlock;
             }
